@@ -434,9 +434,17 @@ class ConditionLike:
                         f"types are: {list(DTYPE_LOOKUP.keys())!r}."
                     )
 
+            # look the (lower-cased) name up among the condition callables only:
+            callable_names = {
+                name.lower(): name
+                for base in (GeneralCallables, MapCallables)
+                if issubclass(cls, base)
+                for name, attr in vars(base).items()
+                if isinstance(attr, classmethod)
+            }
             try:
-                cond_method = getattr(cls, cond_call_str)
-            except AttributeError:
+                cond_method = getattr(cls, callable_names[cond_call_str])
+            except KeyError:
                 msg = (
                     f'Condition callable "{cond_call_str}" is not known or not '
                     f'compatible with specified condition type "{condition_type_str}"'
